@@ -5,6 +5,7 @@ import TapkeeVerif.Proofs.KnnVpBuild
 import TapkeeVerif.Proofs.KnnCover
 import TapkeeVerif.Proofs.CoverPrune
 import TapkeeVerif.Proofs.CoverRefute
+import TapkeeVerif.Proofs.CoverFinal
 /-!
 # Property C02 — all three neighbour searches return exactly the k nearest other samples
 
@@ -128,18 +129,21 @@ theorem three_methods_agree {cb : Cb α K} {pop : List (α × K) → List (α ×
 end
 
 
-/-! ### cover tree batch query: justified upper bounds and sound pruning (partial `cover_query_exact`)
+/-! ### cover tree batch query: `cover_query_exact`
 
-Full statement aimed at (`cover_query_exact`): on a well-formed tree (`CoverTree.wfTree`) the candidate set
-returned for every query sample contains every sample that is `Near` it (`CoverTree.Near`: no `K0 = k+1` distinct
-samples are all strictly closer), hence satisfies the wrapper's needs.  **Proved part** (below): the
-`upper_bound` array is justified at every step (`≥ K0` distinct samples within `upper_bound[0]`), and *every*
-pruning decision of `descend`, `copy_zero_set`, `copy_cover_sets` and the final filter of `brute_nearest` is
-sound — nothing near a query sample is ever discarded.  **Not proved**: the bookkeeping that every non-discarded
-node is eventually descended and the assembly of the per-leaf results; that part is covered on every run by
-running this model on the real (certificate-checked) tree and comparing its candidate sets with the real query's,
-and by the `CandsOk` certificate.  The copy-step lemmas hold for the bound with `query_chi->max_dist` counted
-twice (repair F-COVER-COPY); for the bound with one `max_dist` the statement is refuted below. -/
+Subject: `CoverTree.batchQuery` — the model of `k_nearest_neighbor` / `internal_batch_nearest_neighbor` /
+`descend` / `copy_zero_set` / `copy_cover_sets` / `brute_nearest` / `update` (code as of the repair F-COVER-COPY
+585dcb2) on a given tree.  **Proved**: on every well-formed tree (`CoverTree.wfTree`; the tree the real
+`batch_create` builds is checked against it on every run) and for every metric, whatever the model returns is
+right: every query sample gets a result, and every result `q :: cands` has duplicate-free candidates containing
+every sample near `q` (`CoverTree.Near`: no `K0 = k+1` distinct samples are all strictly closer)
+— `cover_query_exact`; together with the wrapper this gives exact neighbour lists — `cover_tree_exact`.
+Ingredients: the `upper_bound` array is justified at every step, every pruning decision is sound, the traversal
+loses no node (live-set invariant through `descend`, the copy loops and the recursion).  The theorem is about
+answers (`= some res`); that the fuel of the model suffices is not proved (the driver never saw `mq=fuel`).
+`batch_create` and `halfsort` are not modelled (well-formedness is a per-run certificate; `halfsort` only
+reorders a cover set and the theorem holds for the unsorted traversal of the model).  For the copy bound with
+`query_chi->max_dist` counted once — the code before the repair — the statement is refuted below. -/
 
 namespace CoverQuery
 open TapkeeVerif.CoverTree
@@ -201,6 +205,38 @@ theorem cover_filter_sound (hm : IsMetric δ) {q r : Nat} {ub : List K} {Off : L
   ⟨brute_filter_sound hm hub, near_within_ub hub⟩
 
 end
+
+/-- **`cover_query_exact`** : on a well-formed tree over the samples `0..N-1` (with at least two samples, so that
+    the top node has children) and for every metric, if the batch query answers then every sample `q` has a result
+    and every result is `q :: cands` with `cands` duplicate free, inside the sample set and containing every
+    sample near `q`. -/
+theorem cover_query_exact {K : Type} [LinearOrder K] [AddCommGroup K] [IsOrderedAddMonoid K] {δ : Nat → Nat → K}
+    (hm : IsMetric δ) {K0 : Nat} (hK : 1 ≤ K0) {N : Nat} (leafScale : Nat) {top : CNode K}
+    (hwf : wfTree δ N top = true) (htopc : top.children ≠ []) {res : List (List Nat)}
+    (h : batchQuery δ K0 leafScale top = some res) :
+    (∀ r ∈ res, ∃ q ∈ top.leaves, ∃ cands, r = q :: cands ∧
+        (∀ c, Near δ (List.range N) K0 q c → c ∈ cands) ∧ cands.Nodup ∧ ∀ c ∈ cands, c ∈ List.range N) ∧
+      ∀ q ∈ top.leaves, ∃ r ∈ res, r.head? = some q :=
+  batchQuery_good hm hK leafScale hwf htopc h
+
+/-- **`cover_tree_exact`** : the cover-tree neighbour search is exact — for every well-formed tree, every metric,
+    every `k < N`, every result of the batch query and every `partial_sort` outcome of the wrapper, the list
+    returned for sample `q` is the exact k-NN list of `q`. -/
+theorem cover_tree_exact {K : Type} [LinearOrder K] [AddCommGroup K] [IsOrderedAddMonoid K] {δ : Nat → Nat → K}
+    (hm : IsMetric δ) {k N : Nat} (hk : k < N) (leafScale : Nat) {top : CNode K}
+    (hwf : wfTree δ N top = true) (htopc : top.children ≠ []) {res : List (List Nat)}
+    (h : batchQuery δ (k + 1) leafScale top = some res) {q : Nat} {cands l : List Nat} (hr : q :: cands ∈ res)
+    {lt : K × Nat → K × Nat → Bool} (hlt : ∀ a b : K × Nat, lt b a = false → a.1 ≤ b.1)
+    (hl : CoverOut δ lt q k cands l) : IsExactKnn δ (List.range N) k q l := by
+  have hg := batchQuery_good hm (by omega : 1 ≤ k + 1) leafScale hwf htopc h
+  obtain ⟨q', hq', cands', heq, hgc⟩ := hg.1 _ hr
+  simp only [List.cons.injEq] at heq
+  obtain ⟨rfl, rfl⟩ := heq
+  have hqN : q ∈ List.range N := by
+    unfold wfTree at hwf
+    simp only [Bool.and_eq_true, List.all_eq_true, decide_eq_true_eq] at hwf
+    exact List.mem_range.2 (hwf.2 q hq')
+  exact cover_wrapper_exact_near List.nodup_range hqN (by simpa using hk) hgc hlt hl
 
 /-- **F-COVER-COPY, Lean-checked**: with `query_chi->max_dist` counted once (the code before the repair) the
     copy-step pruning statement is false — witness: 7 samples in 3-D under L∞ found on the real code
